@@ -8,6 +8,8 @@ checked against the spec)."""
 INV_ORSWOT = ["TypeOK", "RefinesA", "Converge", "MergeLaws", "Hybrid", "DupNoop", "StaleNoop",
               "ValidateOpOK", "ValidateMergeSym", "ValidateMergeOKorKF", "CtxOK", "FreshDot"]
 
+INV_MVREG = ["TypeOK", "RefinesA", "NoDuplicatePair", "Converge", "MergeLaws", "Hybrid", "DupNoop", "StaleNoop", "FreshDot"]
+
 ENGINES = {
     "orswot": {
         "harness_engine": "orswot",
@@ -25,6 +27,58 @@ ENGINES = {
         "traces": {"quick": [], "thorough": []},
     },
 }
+
+MAP_SERVES = ["C01", "C02", "C03", "C05", "C07", "C08", "C09", "C16", "C17", "C18", "C19", "C20"]
+INV_MAP = ["TypeOK", "KeysOK", "TopCtxOK", "FreshDot"]
+
+
+def mapcfg(cfg, m, k, inv=INV_MAP, reset=False, **kw):
+    d = {"cfg": cfg, "module": "MC_Map.tla", "flags": (["--persist", "--laws"] if not reset else []) + ["--m", str(m), "--k", str(k)],
+         "invariants": inv}
+    d.update(kw)
+    return d
+
+
+ENGINES.update({
+    "mvreg": {
+        "harness_engine": "mvreg",
+        "serves": ["C01", "C02", "C03", "C06", "C07", "C08", "C09", "C18", "C19", "C20"],
+        "configs": {"quick": [
+            {"cfg": "mvreg_q3.cfg", "module": "MC_MVReg.tla", "flags": ["--persist", "--laws"], "invariants": INV_MVREG},
+            {"cfg": "mvreg_q2.cfg", "module": "MC_MVReg.tla", "flags": ["--persist", "--laws"], "invariants": INV_MVREG},
+            {"cfg": "mvreg_qsnap.cfg", "module": "MC_MVReg.tla", "flags": ["--persist", "--laws"], "invariants": INV_MVREG + ["ResetLaws"]},
+        ], "thorough": []},
+        "traces": {"quick": [], "thorough": []},
+    },
+    "map_or": {
+        "harness_engine": "map_or", "serves": MAP_SERVES,
+        "configs": {"quick": [
+            mapcfg("map_or_qc.cfg", 1, 2, INV_MAP + ["ValsOK", "ConvergeReads", "MergeComm", "MergeIdem", "MergeAssoc", "ValidateMergeOK"]),
+            mapcfg("map_or_q3.cfg", 1, 1, timeout=1200),
+            mapcfg("map_or_qreset.cfg", 1, 2, INV_MAP + ["ResetLaws"], reset=True),
+        ], "thorough": []},
+        "traces": {"quick": [], "thorough": []},
+    },
+    "map_mv": {
+        "harness_engine": "map_mv", "serves": MAP_SERVES,
+        "configs": {"quick": [
+            mapcfg("map_mv_qc.cfg", 1, 2, INV_MAP + ["MergeComm", "ValidateOpOK", "ValidateMergeOK"]),
+            mapcfg("map_mv_q3.cfg", 1, 2, timeout=1200),
+            mapcfg("map_mv_qreset.cfg", 1, 2, INV_MAP + ["ResetLaws"], reset=True),
+        ], "thorough": []},
+        "traces": {"quick": [], "thorough": []},
+    },
+    "map_map_mv": {
+        "harness_engine": "map_map_mv", "serves": MAP_SERVES,
+        "configs": {"quick": [mapcfg("map_map_mv_q.cfg", 1, 2, timeout=1200)], "thorough": []},
+        "traces": {"quick": [], "thorough": []},
+    },
+    "map_map_or": {
+        "harness_engine": "map_map_or", "serves": MAP_SERVES,
+        "configs": {"quick": [mapcfg("map_map_or_q.cfg", 1, 1)], "thorough": []},
+        "traces": {"quick": [], "thorough": []},
+    },
+})
 
 PROPS = {
     "C01": {}, "C02": {"nontrivial": ["merge_in_path"]}, "C03": {"nontrivial": ["merge_in_path"]},
